@@ -724,13 +724,27 @@ def rule_lookahead_bounded(ctx: Ctx, rep: Report) -> None:
             g = g or ctx.cfg(fi)
             best = 0
             for t, pol in g.facts_at_ast(x):
-                m = _re.fullmatch(r"self\._remaining\(\)\s*(<|>=|>|<=)\s*(\d+)(\s*\+\s*\w+)?", str(t).strip())
-                if not m:
+                try:
+                    c = ast.parse(str(t), mode="eval").body
+                except SyntaxError:
                     continue
-                op, N = m.group(1), int(m.group(2))
-                if (op == ">=" and pol) or (op == "<" and not pol):
+                if not (isinstance(c, ast.Compare) and len(c.ops) == 1):
+                    continue
+                l, op, r = c.left, type(c.ops[0]), c.comparators[0]
+                if str(norm(r)).replace(" ", "") == "self._remaining()":  # mirrored: N > remaining  ==  remaining < N
+                    l, r = r, l
+                    op = {ast.Lt: ast.Gt, ast.Gt: ast.Lt, ast.LtE: ast.GtE, ast.GtE: ast.LtE}.get(op, op)
+                if str(norm(l)).replace(" ", "") != "self._remaining()":
+                    continue
+                # N, or N + <something non-negative> (a count read from the script): the constant part is a lower bound
+                N = ctx.fold(r, fi.module)
+                if not isinstance(N, int) and isinstance(r, ast.BinOp) and isinstance(r.op, ast.Add):
+                    N = ctx.fold(r.left, fi.module) if isinstance(ctx.fold(r.left, fi.module), int) else ctx.fold(r.right, fi.module)
+                if not isinstance(N, int):
+                    continue
+                if (op is ast.GtE and pol) or (op is ast.Lt and not pol):
                     best = max(best, N)
-                elif (op == ">" and pol) or (op == "<=" and not pol):
+                elif (op is ast.Gt and pol) or (op is ast.LtE and not pol):
                     best = max(best, N + 1)
             rep.ob(rule, f"{q}:{norm(x)}", best >= k + 1, fi.where(x), f"read under _remaining() >= {best}" if best >= k + 1 else
                    f"`{norm(x)}` reads {k} entries ahead where only _remaining() >= {best} is known: a script one entry short is an IndexError out of from_script")
